@@ -95,6 +95,14 @@ def readback(cmd, m=None):
     from dali.device import general as dg
     from dali.device.helpers import DeviceInstanceTypeMapper
     mp = DeviceInstanceTypeMapper(dict(m)) if m is not None else None
+    if m is not None and (hash((len(cmd.frame), cmd.frame.as_integer)) & 1):
+        # the usual life of a map: ONE mapper object per bus, empty when the first events are seen and filled
+        # later.  The same frame object is decoded before and after the mapper has learned the instance's type;
+        # the second decoding is the one judged.
+        mp = DeviceInstanceTypeMapper()
+        command.from_frame(cmd.frame, devicetype=cmd.devicetype, dev_inst_map=mp)
+        for (sa_, in_), t_ in m.items():
+            mp.add_type(short_address=sa_, instance_number=in_, instance_type=t_)
     back = command.from_frame(cmd.frame, devicetype=cmd.devicetype, dev_inst_map=mp)
     if type(back) is not type(cmd):
         return False, "class %s" % cc.clsname(back)
